@@ -212,6 +212,9 @@ scn(name="mprod:single", func=TT + "mprod", props=("C09", "C18"),
 scn(name="mprod:list", func=TT + "mprod", props=("C09", "C18"),
     args=lambda it: (make_tt(it, "x", False, 3), [VList([_factor(it, 0, 0), _factor(it, 1, 2)]), VList([VInt(ZERO), VInt(P.const(2))])], {}),
     check=closed_check(_mprod_expected(3, [0, 2]), "mprod([F0, F1], [0, 2])"))
+scn(name="mprod:list-nonincreasing", func=TT + "mprod", props=("C09", "C18"),
+    args=lambda it: (make_tt(it, "x", False, 3), [VList([_factor(it, 0, 2), _factor(it, 1, 0)]), VList([VInt(P.const(2)), VInt(ZERO)])], {}),
+    check=closed_check(_mprod_expected(3, [2, 0]), "mprod([F0, F1], [2, 0])"))
 scn(name="mprod:ttm", func=TT + "mprod", props=("C18",), must_raise=True, min_returns=0,
     args=lambda it: (make_tt(it, "x", True, 2), [_factor(it, 0, 1), VInt(P.const(1))], {}), check=raises_check)
 
@@ -265,16 +268,25 @@ def _pad_tt_expected(d, npad, value_coef):
     return exp
 
 
+def _pad_args(d, n, value):
+    def mk(it):
+        for j in range(n):
+            it.facts.lb[f"lo{j}"] = 0      # padding widths may be zero
+            it.facts.lb[f"hi{j}"] = 0
+        return None, [make_tt(it, "x", False, d), _padding(n)], {"value": value}
+    return mk
+
+
 def _padding(npad):
     return VTuple(tuple(VTuple((VInt(P.atom(f"lo{j}")), VInt(P.atom(f"hi{j}")))) for j in range(npad)))
 
 
 for _d, _np in ((3, 3), (3, 1), (3, 2), (1, 1)):
     scn(name=f"pad:tt{_d}.p{_np}.zero", func="_extras.pad", props=("C09",),
-        args=(lambda d, n: (lambda it: (None, [make_tt(it, "x", False, d), _padding(n)], {"value": VFloat(0.0)})))(_d, _np),
+        args=_pad_args(_d, _np, VFloat(0.0)),
         check=closed_check(_pad_tt_expected(_d, _np, None), "pad(x, 0)"))
     scn(name=f"pad:tt{_d}.p{_np}.value", func="_extras.pad", props=("C09",),
-        args=(lambda d, n: (lambda it: (None, [make_tt(it, "x", False, d), _padding(n)], {"value": VScalar(Coef.sym("v"), "float")})))(_d, _np),
+        args=_pad_args(_d, _np, VScalar(Coef.sym("v"), "float")),
         presets={"scalar == 0": False}, check=closed_check(_pad_tt_expected(_d, _np, Coef.sym("v")), "pad(x, value)"))
 scn(name="pad:too-many", func="_extras.pad", props=("C18",), must_raise=True, min_returns=0,
     args=lambda it: (None, [make_tt(it, "x", False, 2), _padding(3)], {}), check=raises_check)
